@@ -151,9 +151,74 @@ func runH9Scenario(t *testing.T, vt *vhT, slow string, cause string, units int) 
 	}
 }
 
+// runH9SlowDial: a Connect whose peer is slow to answer must not stop the server from serving the other clients of the
+// same listener while the dial is in progress (real time: a goroutine waiting for a mutex cannot be skipped by virtual time)
+func runH9SlowDial(vt *vhT) {
+	vt.OpSync("slowcb Connect-dial other-client 1")
+	lis := []*h2Listener{{stream: true, ip: net.ParseIP("10.0.0.1").To4()}}
+	w := newH2World(vt, ServerConfig{}, lis, true, false)
+	h := &h2Hist{vt: vt, w: w, lastTid: map[string]int{}, owner: map[string]string{}}
+	nonce, _ := w.srv.nonceHash.Generate()
+	cred := func(u string) *h2Cred {
+		return &h2Cred{mi: true, nonce: true, nonceOK: true, realm: true, uname: true, known: true, macOK: true, user: u, nonceVal: nonce, pass: h2Users[u]}
+	}
+	a := w.client(0, net.ParseIP("10.0.0.2").To4(), 4000)
+	b := w.client(0, net.ParseIP("10.0.0.3").To4(), 4000)
+	peerIP := net.ParseIP("10.0.0.9").To4()
+	_ = w.peerListener(peerIP, 9000)
+	peer := proto.PeerAddress{IP: peerIP, Port: 9000}
+	answered := func(c *h2Client, wait time.Duration) bool {
+		end := time.Now().Add(wait)
+		for time.Now().Before(end) {
+			if fr, _ := c.takeFrames(); len(fr) > 0 {
+				return true
+			}
+			time.Sleep(5 * time.Millisecond)
+		}
+		return false
+	}
+	send := func(c *h2Client, u string, typ stun.MessageType, attrs ...stun.Setter) {
+		h.tid++
+		c.sendRaw(h.build(typ, h.tid, cred(u), attrs...))
+	}
+	send(a, "alice", stun.NewType(stun.MethodAllocate, stun.ClassRequest), proto.RequestedTransport{Protocol: proto.ProtoTCP})
+	send(b, "bob", stun.NewType(stun.MethodAllocate, stun.ClassRequest), proto.RequestedTransport{Protocol: proto.ProtoTCP})
+	if !answered(a, 3*time.Second) || !answered(b, 3*time.Second) {
+		vt.Alarm("h9-setup", "Allocate over the stream listener not answered")
+		vt.Obs("ok")
+		w.shutdownWith(func() { time.Sleep(50 * time.Millisecond) })
+		return
+	}
+	send(a, "alice", stun.NewType(stun.MethodCreatePermission, stun.ClassRequest), peer)
+	_ = answered(a, 3*time.Second)
+	w.dialDelay = 2 * time.Second
+	send(a, "alice", stun.NewType(stun.MethodConnect, stun.ClassRequest), peer)
+	time.Sleep(200 * time.Millisecond) // the dial is now in progress
+	t0 := time.Now()
+	send(b, "bob", stun.NewType(stun.MethodRefresh, stun.ClassRequest), proto.Lifetime{Duration: 10 * time.Minute})
+	if !answered(b, 1200*time.Millisecond) {
+		vt.Alarm("manager-blocked-by-dial", "another client's Refresh was not answered within 1.2 s while a Connect's dial (2 s) was in progress")
+	}
+	done := make(chan int, 1)
+	go func() { done <- w.srv.AllocationCount() }()
+	select {
+	case <-done:
+	case <-time.After(time.Until(t0.Add(1200 * time.Millisecond))):
+		vt.Alarm("manager-blocked-by-dial", "Server.AllocationCount blocked while a Connect's dial was in progress")
+		<-done
+	}
+	_ = answered(a, 4*time.Second) // the Connect response once the dial completed
+	w.dialDelay = 0
+	vt.Obs("ok")
+	w.shutdownWith(func() { time.Sleep(50 * time.Millisecond) })
+}
+
 func TestVerifH9(t *testing.T) {
 	vt := vhOpen("h9")
 	defer vt.Close()
+	vt.Watchdog(120 * time.Second)
+	runH9SlowDial(vt)
+	vt.Flush()
 	for _, slow := range []string{"OnPermissionCreated", "OnChannelCreated", "OnAllocationCreated", "OnPermissionDeleted", "OnChannelDeleted", "OnAllocationDeleted", "none"} {
 		for _, cause := range []string{"expiry", "refresh0", "relayerr", "close"} {
 			for _, d := range []int{1, 4} {
